@@ -158,6 +158,37 @@ def w_round2(x, parts, sl, u):
     return flat, lo
 
 
+def w_round3(x, dQ, n):
+    xi = np.zeros_like(x)
+    xi[:2] = 2 * x[:2] / 3                     # R-INT-TRUNC: quotient into an array typed like the argument
+    if np.isclose(x.max(), x.min()):           # R-ABS-TOL: default absolute tolerance
+        return None
+    active = np.sum(dQ, axis=0) != 0           # R-SUM-ZERO: signed sum as a zero test
+    nrm = np.linalg.norm(dQ, axis=1)           # R-AXIS-ROLE: i addresses columns below, the reduction runs over them
+    out = []
+    for i in range(n):
+        q = dQ[:, i]
+        if nrm[i] == 0:
+            continue
+        out.append(q)
+    step = 1.0
+    res = x.sum() * step
+    while res > 1e-3:                          # R-STALE-LOOP: res depends on step, which the body changes
+        step *= 0.5
+    return active, out
+
+
+class W_SigIdentity(Module):
+    def _response(self, a, b):
+        return a * b
+
+    def _sensitivity(self, dy):
+        a, b = [s.state for s in self.sig_in]
+        if self.sig_in[1] in self.sig_in[:1]:   # R-SIG-IDENTITY: result keyed on the identity of a signal
+            return dy * b, dy * b
+        return dy * b, dy * a
+
+
 class W_Solver(LinearSolver):
     def update(self, A):
         self.A = A
